@@ -141,8 +141,24 @@ Proof.
   unfold decode_btor, top_entries in D. destruct bs as [|c r]; [discriminate|].
   destruct (c =? ch_d); [|discriminate].
   destruct (raw_entries (S (length r)) r []) as [[es rest]|] eqn:R; [|discriminate].
+  destruct (max_bencode_depth <? entries_depth es); [discriminate|].
   destruct (fold_info es _ _ D) as [E|(k & v & raw & Hin & Hk & E)]; [rewrite I in E; discriminate|].
   rewrite I in E. injection E as ->.
   destruct (raw_entries_in _ _ _ _ _ R _ Hin) as [[]|(pre & hdr & post & k1 & k2 & E & P1 & P2)].
   exists (c :: pre), hdr, post, k, v, k1, k2. rewrite E. repeat split; auto. now apply bytes_eqb_eq.
+Qed.
+
+(* ---------- nesting is bounded (fix dc6da02) ---------- *)
+Lemma metadata_depth info g : metadata_complete info = MOk g ->
+  exists v r k, bdecode info = BOk v r k /\ vdepth v <= max_bencode_depth.
+Proof.
+  unfold metadata_complete, decode_binfo. destruct (bdecode_lim info) as [v r k|e k] eqn:D; [|discriminate].
+  apply bdecode_lim_ok in D as [D Hd]. intros _. eauto.
+Qed.
+
+Lemma read_torrent_depth bs raw g cd tr ul hs : read_torrent bs = ROk raw g cd tr ul hs ->
+  exists es, top_entries bs = Some es /\ entries_depth es <= max_bencode_depth.
+Proof.
+  unfold read_torrent, decode_btor. destruct (top_entries bs) as [es|]; [|discriminate].
+  destruct (max_bencode_depth <? entries_depth es) eqn:E; [discriminate|]. intros _. exists es. split; [reflexivity|lia].
 Qed.
